@@ -372,6 +372,19 @@ Qed.
 
 Ltac split10 := split; [|split; [|split; [|split; [|split; [|split; [|split; [|split; [|split]]]]]]]].
 
+(* compute comparisons between numerals *)
+Ltac leb_compute :=
+  repeat match goal with
+  | |- context [Nat.leb ?a ?b] =>
+    lazymatch a with S _ => idtac | O => idtac end;
+    lazymatch b with S _ => idtac | O => idtac end;
+    let v := eval compute in (Nat.leb a b) in change (Nat.leb a b) with v
+  | H : context [Nat.leb ?a ?b] |- _ =>
+    lazymatch a with S _ => idtac | O => idtac end;
+    lazymatch b with S _ => idtac | O => idtac end;
+    let v := eval compute in (Nat.leb a b) in change (Nat.leb a b) with v in H
+  end.
+
 Ltac th3_self K1 Hth Hpc :=
   let Tt := fresh "Tt" in
   pose proof (K1 _ _ Hth) as Tt;
@@ -402,4 +415,16 @@ Proof.
        | apply K2; [lia|assumption] | apply K3; [lia|assumption]
        | apply K10; [assumption|lia] ]; fail).
   all: try (split; intro Hx; first [lia | apply K7; lia | (apply K7 in Hx; lia) | apply K8; lia | (apply K8 in Hx; lia)]; fail).
+  (* runner steps, thread part *)
+  all: try (intros t0 th0 Ht0; apply updt_cases in Ht0; destruct Ht0 as [[-> ->]|[Hne Ht0]];
+    [ pose proof (K1 _ _ Hth) as Tt; unfold tinv3, exp_active, async_active, late_ok, close_returned in *; asimp;
+      rewrite Hpc in Tt; rewrite ?Ho in *;
+      destruct (t_late th); destruct (t_kind th); destruct (has_recv s); cbn in *;
+      rewrite ?andb_true_r, ?andb_false_r in *; try reflexivity; try discriminate;
+      destruct (6 <=? _); destruct (9 <=? _); reflexivity
+    | pose proof (K1 _ _ Ht0) as T0; unfold tinv3, close_returned in *; asimp;
+      rewrite ?Ho, ?Hs in T0; leb_compute;
+      try rewrite (none_active_spec _ _ Hna _ _ Ht0 (I1 _ _ Ht0));
+      destruct (exp_active th0); destruct (async_active th0); destruct (t_late th0);
+      cbn in *; try reflexivity; try discriminate; try exact T0 ]; fail).
 Admitted.
